@@ -20,6 +20,7 @@ CONSTANTS
   EKeys = {}
   UseMemo = FALSE
   MemoClearedBy = {}
+  RefusedLeaksKey = FALSE
 SPECIFICATION TESpec
 CHECK_DEADLOCK FALSE
 INVARIANT TENamesUnique
